@@ -196,6 +196,10 @@ NoStats == [channels |-> 0, messages |-> 0]
 
 MetaEntries(m) == {k \in 1..MaxLen : m[k] # 0}
 
+\* The entry point (OpenBackupSnapshot or OpenBackupSnapshotWithStats) and the order in which
+\* the channel cuts are handed over are not arguments of the model: the stream and its
+\* statistics are a function of the cut alone.  The harness takes every export through both
+\* entry points with the cuts in every order and requires identical bytes and statistics.
 Export ==
   /\ Building
   /\ IF Msg
